@@ -78,7 +78,10 @@ def sum_total(h):
 
 
 def replay(payload):
-    return dict(reproduced=False, error='see contracts.C11:replay (shared native inventory check)')
+    """The native inventory check shared with C11: the option combination of the counter-model plus a fixed sample of
+    combinations on a synthetic trajectory; every species' total must equal trajectory + LTO + APU + GSE (+ life cycle)."""
+    from contracts import C11
+    return C11.replay(payload)
 
 
 # -------------------------------------------------------------------------------------------------
